@@ -12,6 +12,6 @@ for p, cfg in props.items():
     h = cfg.get("harness")
     if not h: continue
     v = open(os.path.join(check.ROOT, "harness", h, "VPATH")).read().strip()
-    r = check.go_build(v, os.path.join(check.BUILD, "bin", h), cfg.get("go_flags", []))
+    r = check.go_build(h, v, os.path.join(check.BUILD, "bin", h), cfg.get("go_flags", []))
     print("warm", p, h, "ok" if r.returncode == 0 else r.stdout[-500:])
 PY
